@@ -274,6 +274,7 @@ def project(r, reg):
     else:
         return {"cls": "Other", "grid": 0, "dims": [], "name": "other", "g": {"cnt": {k: -1 for k in GRID_KINDS}, "eq": [], "share": []}}
     grid = getattr(r, "uxgrid", None) if cls == "Ux" else None
+    known = len(reg.grids)
     h = reg.handle(grid)
     dims = []
     for dname, size in zip(r.dims, r.shape):
@@ -295,7 +296,8 @@ def project(r, reg):
     g = {"cnt": {k: -1 for k in GRID_KINDS}, "eq": [], "share": []}
     if grid is not None:
         g["cnt"] = dict(reg.cnt(grid))
-        for i, og in enumerate(reg.grids):
+        # equality / dataset sharing with the known grids is observed when a grid first appears (a copy is a new object)
+        for i, og in enumerate(reg.grids if h > known else []):
             if og is grid:
                 continue
             try:
